@@ -84,7 +84,8 @@ func (wtr *XMLWtr) container(lvl int) node.Node {
 		return wtr.container(lvl + 1), nil
 	}
 	s.OnBeginEdit = func(r node.NodeRequest) error {
-		if !meta.IsLeaf(r.Selection.Meta()) && !r.Selection.InsideList && !meta.IsList(r.Selection.Meta()) {
+		// a list item is an element like a container is, a list as a whole is not
+		if !meta.IsLeaf(r.Selection.Meta()) && (r.Selection.InsideList || !meta.IsList(r.Selection.Meta())) {
 			if lvl == 0 && first {
 				ns := wtr.getXmlns(r.Selection.Path)
 				ident := wtr.ident(r.Selection.Path) + " xmlns=" + "\"" + ns + "\""
